@@ -548,6 +548,7 @@ class Model(Object):
             metabolite_list = [metabolite_list]
         # Make sure metabolites exist in model
         metabolite_list = [x for x in metabolite_list if x.id in self.metabolites]
+        context = get_context(self)
         for x in metabolite_list:
             x._model = None
 
@@ -555,6 +556,8 @@ class Model(Object):
             associated_groups = self.get_associated_groups(x)
             for group in associated_groups:
                 group.remove_members(x)
+                if context:
+                    context(partial(group.add_members, [x]))
 
             if not destructive:
                 for the_reaction in list(x._reaction):  # noqa W0212
@@ -841,11 +844,15 @@ class Model(Object):
                             # remove reference to the gene in all groups
                             for group in self.get_associated_groups(gene):
                                 group.remove_members(gene)
+                                if context:
+                                    context(partial(group.add_members, [gene]))
 
                 # remove reference to the reaction in all groups
                 associated_groups = self.get_associated_groups(reaction)
                 for group in associated_groups:
                     group.remove_members(reaction)
+                    if context:
+                        context(partial(group.add_members, [reaction]))
 
     def add_groups(self, group_list: Union[str, Group, List[Group]]) -> None:
         """Add groups to the model.
